@@ -102,7 +102,7 @@ def _bounded_bg_wthh(nmax):
     bad = []
     for n in range(1, nmax + 1):
         for fg in itertools.product([0, 3], repeat=n):
-            for flags in itertools.product([(30, False), (20, True), (20, False), (30, True)], repeat=n):
+            for flags in itertools.product([(30, False), (24, True), (20, False), (25, True)], repeat=n):  # both sides of the age bound
                 alter = numpy.array([f[0] for f in flags])
                 eig = numpy.array([f[1] for f in flags])
                 fga = numpy.array(fg)
